@@ -3,6 +3,7 @@
 package absnfs
 
 import (
+	"sync/atomic"
 	"strings"
 	"fmt"
 	"reflect"
@@ -107,6 +108,9 @@ func vfC24Seq(rec *evid.Rec, s int) {
 		return
 	}
 	fh := vfFH(l.FH)
+	// one connection of the real loop (record marking, worker pool) stays open across the updates
+	pp := srv.pipe("127.0.0.1", 760)
+	defer pp.close()
 	var ops []string
 	fail := func(sig, what string) {
 		rec.Violate(sig, what, map[string]any{"seq": s, "ops": append([]string(nil), ops...)})
@@ -367,6 +371,39 @@ func vfC24Seq(rec *evid.Rec, s int) {
 				fail("C24/write-fails-after-update/"+kind, fmt.Sprintf("after %s: %v status %d", desc, werr, vfSt(wr)))
 			}
 		}()
+		// the same over the open connection: the request goes through the worker pool
+		if probe == "ok" {
+			_, raw, perr := pp.call(vfProgNFS, 3, 0, vfRootCred(), nil)
+			if perr == nil {
+				_, raw, perr = pp.call(vfProgNFS, 3, 1, vfRootCred(), xdrw.ArgFH(root))
+			}
+			if perr != nil || len(raw) < 12 {
+				// no reply within the pipe's wall-clock limit: a verdict only on structural grounds
+				probe = "connection-no-reply"
+				workers := vfGoroutinesWith("absnfs.(*WorkerPool).worker")
+				mw, _, queued := srv.nfs.workerPool.Stats()
+				first := vfC29LockWaiters()
+				time.Sleep(2 * time.Second)
+				second := vfC29LockWaiters()
+				stuck := ""
+				for id, st := range second {
+					if _, was := first[id]; was {
+						stuck = st
+					}
+				}
+				switch {
+				case workers == 0 && mw > 0 && atomic.LoadInt32(&srv.nfs.workerPool.running) == 1:
+					fail("C24/connection-gets-no-reply-after-update/running-pool-has-no-workers/"+kind, fmt.Sprintf("after %s a NULL/GETATTR on the open connection got no reply (%v); the worker pool reports running with %d workers, %d tasks queued, and no worker goroutine exists", desc, perr, mw, queued))
+				case stuck != "":
+					vfStuckSeen.Store(true)
+					fail("C24/connection-gets-no-reply-after-update/handler-stuck-on-a-lock/"+kind, fmt.Sprintf("after %s: %v; %s: %s", desc, perr, evid.StuckMarker, stuck))
+				default:
+					rec.Inconclusive(1)
+				}
+				rec.Distinct(fmt.Sprintf("%s|rejected=%v|probe=%s|%s", kind, rejected, probe, fieldCls))
+				return
+			}
+		}
 		if after.TransferSize <= 0 {
 			fail("C24/non-positive-transfer-size-reported", fmt.Sprintf("%d after %s", after.TransferSize, desc))
 		}
